@@ -32,7 +32,8 @@ CONFIGS = {
     "C20": {
         "level": "exploration",
         "rule": "one run = ruleset with every label shape (multi-digit and three-digit lengths, Y1, X1, K, M) x drawn --min_length/--max_length x "
-                "--terminal_set x --regex x --copy; edit_rules.main() on the scratch disk with the whole tree hashed before and after; "
+                "--terminal_set x --regex x --copy, as a history of 1-3 successive edits (each a new edit_rules.main() process image working on what the "
+                "previous one left on the scratch disk; the first grammar.txt sometimes hand-edited: no final line end, or CRLF) with the whole tree hashed before and after every edit; "
                 "oracle: grammar.txt == original lines minus the failing ones, byte for byte and in order; nothing else changed; with "
                 "--copy the source is untouched and the copy differs only in grammar.txt; then the real guesser (skip_brute) runs over "
                 "the edited disk and every guess length is checked against the bounds; non-trivial = at least one structure removed "
@@ -267,11 +268,49 @@ def run_c20(t, tier, res):
                           pools=["normalised", "dyadic", "decimal"])
     rdir = os.path.join(wr, "Rules", "R")
     worlds.write_ruleset(spec, rdir)
+    # a hand-edited base-structure file: last line without a line end, or CRLF line ends
+    gfile = os.path.join(rdir, "Grammar", "grammar.txt")
+    hand = t.draw(8)
+    if hand in (0, 1):
+        data = open(gfile, "rb").read()
+        open(gfile, "wb").write(data.rstrip(b"\n"))
+        res.stats["grammar_without_final_newline"] += 1
+    elif hand == 2:
+        data = open(gfile, "rb").read()
+        open(gfile, "wb").write(data.replace(b"\n", b"\r\n"))
+        res.stats["grammar_with_crlf"] += 1
+    # a history of 1-3 edits, each a new process image working on what the previous one left on the disk
+    nsteps = t.choice([1, 1, 2, 2, 3])
+    src = "R"
+    all_args = []
+    removed_any = kept_any = False
+    shape = None
+    for step in range(nsteps):
+        out = edit_step(t, res, wr, src, step, all_args)
+        if out is None:
+            break
+        src, n_orig, n_kept, shape = out
+        removed_any = removed_any or n_kept < n_orig
+        kept_any = n_kept > 0
+        if n_kept == 0:
+            break
+    res.sample = {"ruleset": worlds.spec_summary(spec), "edits": all_args}
+    res.stats["edit_steps"] += len(all_args)
+    res.stats["histories_with_2plus_edits"] += 1 if len(all_args) >= 2 else 0
+    res.nontrivial = digest_of([spec["base"], all_args]) if (removed_any and kept_any) else None
+    res.shape = (shape, len(all_args))
+    res.digest = digest_of([tree_snapshot(os.path.join(wr, "Rules")), [v.as_dict() for v in res.violations]])
+
+
+def edit_step(t, res, wr, src, step, all_args):
+    """one edit_rules.main() process image on ruleset `src`; returns (ruleset to edit next, lines before, lines kept, shape)
+    or None after a violation"""
+    rdir = os.path.join(wr, "Rules", src)
     opt = {"min": t.choice([0, 0, 1, 2, 3, 4, 6, 8, 12]), "max": t.choice([0, 0, 3, 4, 5, 6, 8, 10, 14]),
            "terminals": None, "regex": None, "copy": t.chance(1, 3)}
     if opt["min"] and opt["max"] and opt["min"] > opt["max"] and t.chance(3, 4):
         opt["min"], opt["max"] = opt["max"], opt["min"]
-    args = ["-r", "R"]
+    args = ["-r", src]
     if opt["min"]:
         args += ["--min_length", str(opt["min"])]
     if opt["max"]:
@@ -283,23 +322,25 @@ def run_c20(t, tier, res):
     if t.chance(1, 3):
         opt["regex"] = t.sample(REGEXES, t.between(1, 2))
         args += ["--regex", ",".join(opt["regex"])]
+    target = src
     if opt["copy"]:
-        args += ["--copy", "RC"]
-    res.sample = {"ruleset": worlds.spec_summary(spec), "args": args}
+        target = "RC%d" % step
+        args += ["--copy", target]
+    all_args.append(args)
     before = tree_snapshot(os.path.join(wr, "Rules"))
     orig = open(os.path.join(rdir, "Grammar", "grammar.txt"), "rb").read()
     _text, exc = run_tool("edit_rules", args)
     if exc:
-        res.violate("C20", "raised", {"exception": exc[-900:], "args": args})
-        return
+        res.violate("C20", "raised", {"exception": exc[-900:], "args": args, "step": step})
+        return None
     after = tree_snapshot(os.path.join(wr, "Rules"))
-    target = "RC" if opt["copy"] else "R"
     gpath = os.path.join(target, "Grammar", "grammar.txt")
     want = expected_grammar(orig, opt)
     got = open(os.path.join(wr, "Rules", gpath), "rb").read() if gpath in after else None
     if got is None:
-        res.violate("C20", "edited_grammar_missing", {"args": args})
-        return
+        res.violate("C20", "edited_grammar_missing", {"args": args, "step": step})
+        return None
+
     def parsed(b):
         out = []
         for raw in b.decode("ascii", "replace").replace("\r\n", "\n").split("\n"):
@@ -315,36 +356,34 @@ def run_c20(t, tier, res):
     elif got != want:
         gl, wl = got.decode("ascii", "replace").split("\n"), want.decode("ascii").split("\n")
         res.violate("C20", "grammar_not_original_minus_failing", {
-            "args": args, "removed_but_should_stay": [l for l in wl if l and l not in gl][:4],
+            "args": args, "step": step, "earlier_edits": repr(all_args[:-1]),
+            "removed_but_should_stay": [l for l in wl if l and l not in gl][:4],
             "kept_but_should_go": [l for l in gl if l and l not in wl][:4],
             "order_or_bytes_only": sorted(gl) == sorted(wl)})
-        return
+        return None
     # nothing else touched
     for path, h in before.items():
         if path == gpath:
             continue
         if after.get(path) != h:
-            res.violate("C20", "other_file_changed", {"file": path, "args": args})
-            return
+            res.violate("C20", "other_file_changed", {"file": path, "args": args, "step": step})
+            return None
     if opt["copy"]:
-        if before.get(os.path.join("R", "Grammar", "grammar.txt")) != after.get(os.path.join("R", "Grammar", "grammar.txt")):
-            res.violate("C20", "copy_modified_the_source", {"args": args})
-            return
         for path, h in after.items():
-            if path.startswith("RC" + os.sep) and path != gpath:
-                src = "R" + path[2:]
-                if before.get(src) != h:
+            if path.startswith(target + os.sep) and path != gpath:
+                srcp = src + path[len(target):]
+                if before.get(srcp) != h:
                     res.violate("C20", "copy_differs_beyond_grammar", {"file": path})
-                    return
-        extra = [p for p in after if not p.startswith("R" + os.sep) and not p.startswith("RC" + os.sep)]
+                    return None
+        extra = [p for p in after if p not in before and not p.startswith(target + os.sep)]
     else:
         extra = [p for p in after if p not in before]
     if extra:
         res.violate("C20", "unexpected_new_file", {"files": extra[:4]})
-        return
+        return None
     # guesser over the edited disk
-    n_orig = len([l for l in orig.split(b"\n") if l])
-    n_kept = len([l for l in want.split(b"\n") if l])
+    n_orig = len(parsed(orig))
+    n_kept = len(parsed(want))
     if (opt["min"] or opt["max"]) and n_kept:
         from lib_guesser.priority_queue import PcfgQueue
         out = guesser.LineRecorder()
@@ -372,17 +411,15 @@ def run_c20(t, tier, res):
                             res.violate("C20", "guess_length_outside_bounds", {
                                 "guess": g, "length": L, "min": opt["min"], "max": opt["max"], "pt": repr(item["pt"])}, key=key)
                             if key is None:
-                                return
+                                return None
                             break
         except Exception:
             import traceback
             res.violate("C20", "guesser_raised_on_edited_ruleset", {"exception": traceback.format_exc()[-700:], "args": args})
-            return
+            return None
         res.stats["guesses_length_checked"] += nguess
     res.stats["copy_runs"] += 1 if opt["copy"] else 0
-    res.nontrivial = digest_of([spec["base"], args]) if 0 < n_kept < n_orig else None
-    res.shape = (bool(opt["min"]), bool(opt["max"]), bool(opt["terminals"]), bool(opt["regex"]), opt["copy"])
-    res.digest = digest_of([after, [v.as_dict() for v in res.violations]])
+    return target, n_orig, n_kept, (bool(opt["min"]), bool(opt["max"]), bool(opt["terminals"]), bool(opt["regex"]), opt["copy"])
 
 
 def run_one(tape, tier, prop):
@@ -390,3 +427,66 @@ def run_one(tape, tier, prop):
     with guesser.streams():
         {"C17": run_c17, "C20": run_c20}[prop](tape, tier, res)
     return res
+
+
+# ---------------------------------------------------------------------------
+# C17 across real processes: "the first N of the unbounded list" and "the same list to a file" are statements about
+# separate invocations of prince_ling.py, each a fresh interpreter with its own string-hash seed
+
+def extra_phase(tier, base_seed, prop="C17"):
+    if prop != "C17":
+        return {}
+    import shutil
+    import subprocess
+    from ..tape import Tape
+    out = {"real_process_runs": 0, "hash_seeds_used": [], "violations": []}
+    code = scratch.code_dir()
+    nworlds = 3 if tier == "quick" else 12
+    for i in range(nworlds):
+        t = Tape(seed=base_seed * 6007 + 300 + i)
+        with guesser.streams():
+            sample, rdir = gen_prince_world(t)
+        shutil.rmtree(os.path.join(code, "Rules"), ignore_errors=True)
+        shutil.copytree(rdir, os.path.join(code, "Rules", "R"))
+        lower = bool(i % 2)
+        base = ["-r", "R"] + (["--all_lower"] if lower else [])
+        ofile = os.path.join(scratch.worker_root(), "prince_real_out.txt")
+
+        def real(extra, hs):
+            p = subprocess.run([sys.executable, "-W", "ignore", os.path.join(code, "prince_ling.py")] + base + extra,
+                               stdin=subprocess.DEVNULL, stdout=subprocess.PIPE, stderr=subprocess.DEVNULL, timeout=300,
+                               env=dict(os.environ, PYTHONUTF8="1", PYTHONHASHSEED=str(hs)))
+            out["real_process_runs"] += 1
+            out["hash_seeds_used"].append(hs)
+            return p.stdout
+
+        def bad(kind, detail):
+            out["violations"].append({"seed": base_seed, "tape": list(t.rec), "violation": {
+                "property": "C17", "kind": kind, "key": None, "detail": dict(detail, world=i, sample=repr(sample)[:300])},
+                "case": None})
+        full = real([], 1 + 977 * i)
+        lines = full.split(b"\n")[:-1]
+        total = len(lines)
+        if total == 0 or total > 5000:
+            continue
+        again = real([], 20011 + i)
+        if again != full:
+            bad("unbounded_list_differs_between_processes", {"lines": total})
+            continue
+        real(["-o", ofile], 333 + i)
+        try:
+            ftext = open(ofile, "rb").read()
+        except OSError:
+            ftext = None
+        if ftext != full:
+            bad("file_differs_from_stdout_across_processes", {"lines": total})
+            continue
+        for k in range(4):
+            n = 1 + t.draw(total)
+            got = real(["--size", str(n)], 5000 + 31 * k + i)
+            if got.split(b"\n")[:-1] != lines[:n]:
+                bad("size_is_not_a_prefix_of_the_unbounded_list_across_processes", {"size": n, "total": total})
+                break
+    shutil.rmtree(os.path.join(code, "Rules"), ignore_errors=True)
+    out["hash_seeds_used"] = len(set(out["hash_seeds_used"]))
+    return out
